@@ -1140,7 +1140,7 @@ def apply_op(ctx, node, op):
         if not ok:
             return None
         if [tr(r) for r in lst] != [tr(r) for r in want]:
-            col.fail("assign:rows-not-updated" + qual, case, "columns say %r, tolist() says %r" % (got[:4], lst[:4]))
+            col.fail("assign:rows-not-updated", case, "columns say %r, tolist() says %r" % (got[:4], lst[:4]))
             return None
     good = True
     if want is not None:
@@ -1811,7 +1811,7 @@ def run(tier="quick", seed=0):
                      "the first and last column, assign after a read, one mask / slice / index array / concatenation / sort",
         "file-backed tables (bnp.open(path).read(); formats " + ", ".join(FILE_SPECS) + "; rows limited to values the text "
         "formats hold: non-empty names, integers >= 0, short decimals; operands of concatenate are read from files too)":
-            ("bed n=3: rep; bed, bed6, fastq n=3 and bed n=1: hist x hist; bedgraph chrom.sizes narrowPeak pairs n=3: hist" if quick else
+            ("bed n=3: rep; bed, fastq n=3 and bed n=1: hist x hist; bed6 bedgraph chrom.sizes narrowPeak pairs n=3: hist" if quick else
              "bed bed6 bedgraph fastq chrom.sizes n=3: rep x mini; narrowPeak pairs n=3: rep; bed fastq n=3: hist x hist x hist; "
              "every format n in {1,2}: hist x hist"),
         "re-encode": "source x declared alphabet: every ordered pair of %d alphabets (%s) x largest letter present %s x "
@@ -1932,8 +1932,8 @@ def run(tier="quick", seed=0):
         section(sch.name + " with context", lambda: run_programs(col, sch, [0, 1, 3], ("rep",), context=True))
     # programs on tables read from files
     if quick:
-        splan = [(["bed"], [3], ("rep",)), (["bed", "bed6", "fastq"], [3], ("hist", "hist")), (["bed"], [1], ("hist", "hist")),
-                 (["bedgraph", "sizes", "narrowPeak", "pairs"], [3], ("hist",))]
+        splan = [(["bed"], [3], ("rep",)), (["bed", "fastq"], [3], ("hist", "hist")), (["bed"], [1], ("hist", "hist")),
+                 (["bed6", "bedgraph", "sizes", "narrowPeak", "pairs"], [3], ("hist",))]
     else:
         splan = [(["bed", "bed6", "bedgraph", "fastq", "sizes"], [3], ("rep", "mini")), (["narrowPeak", "pairs"], [3], ("rep",)),
                  (["bed", "fastq"], [3], ("hist", "hist", "hist")), (list(FILE_SPECS), [1, 2], ("hist", "hist"))]
